@@ -8,13 +8,25 @@ from kernelprop import *
 import oracles_prim
 
 
+def o_c04(prog, lines):
+    return oracles_prim.o_locks(prog, lines) + oracles_prim.o_poison(prog, lines)
+
+
+def poison_streams(c, rng, tier, results):
+    """a task panics while it holds two or three guards; the others run inside its unwinding (every run fails at its
+    first execution, so each program is run under eight single-iteration schedulers)"""
+    n = 150 if tier == "quick" else 2500
+    res = {"poison_shape": run_stream("c04_poison", gen.batch(rng.next(), "poison_shape", n, "c04p_"), "trace")}
+    return res, apply_oracle(res, o_c04)
+
+
 def run(tier, seed):
     return run_kernel_prop("C04", tier, seed, ["ShuttleProofs.C04"], "ShuttleProofs.C04Audit", None,
-                           ["ShuttleProofs/C04.lean"], oracles_prim.o_locks,
+                           ["ShuttleProofs/C04.lean"], o_c04,
                            "mutex_exclusive, rwlock_writer_exclusive, rwlock_no_reader_with_writer, try_succeeds_iff_available, failed_try_leaves_state (with the F3 repair; "
                            "witness for the unrepaired code kept), reentrant_diagnosed, poison_after_panicking_release, atomic ops = fetch_update mod 2^bits",
-                           profiles=["locks", "atomics", "stdmix", "condvar", "kernel"], per_quick=100, lemma_prefixes=("Sem", "Locks"))
+                           profiles=["locks", "atomics", "stdmix", "condvar", "kernel"], per_quick=100, lemma_prefixes=("Sem", "Locks"), extra=poison_streams)
 
 
 def replay(path):
-    return replay_program(path, lambda res: [(w, None, s) for n in res["names"] for (w, s) in oracles_prim.o_locks(res["progs"][n], res["impl"].get(n, []))])
+    return replay_program(path, lambda res: [(w, None, s) for n in res["names"] for (w, s) in o_c04(res["progs"][n], res["impl"].get(n, []))])
